@@ -299,7 +299,7 @@ class C17(Check):
         'ints (two\'s complement); finite inverse variance; maskbits pre-loaded from fixtures/maskbits.par (no download)',
     ]
     REQUIRED_COUNTERS = (
-        'reject_calls', 'reject_by_limit_points', 'reject_kept_points', 'reject_excluded_points', 'reject_grown_points',
+        'online_reject_points_judged', 'online_reject_points_rejected_by_a_limit', 'brd_differentials', 'reject_calls', 'reject_by_limit_points', 'reject_kept_points', 'reject_excluded_points', 'reject_grown_points',
         'reject_grow_clipped_at_end', 'reject_near_limit_decided', 'reject_qdone_true', 'reject_qdone_false',
         'reject_sticky_steps_with_prev_rejected', 'reject_nonsticky_readmitted_points', 'reject_invvar_zero_points',
         'interp_interior_samples', 'interp_end_samples', 'interp_single_good_lines', 'interp_allbad_lines',
@@ -375,6 +375,102 @@ class C17(Check):
         self.rec.wrap(S2, 'aesthetics')
         self.rec.wrap(S1, 'skymask')
         self._max_rel = 0.0
+        # online monitor (vlib.xwork): djs_reject judged on the calls iterfit and xy2traceset make while their own checks' workloads run
+        from vlib import xwork
+        import sys
+        self.online = xwork.Online()
+        self.xw = xwork.XWork(self)
+        for modname in ('pydl.pydlutils.bspline', 'pydl.pydlutils.trace', 'pydl.pydlspec2d.spec1d'):
+            __import__(modname)
+            mod = sys.modules[modname]
+            if callable(mod.__dict__.get('djs_reject')):
+                self.online.attach(self.rec, mod, 'djs_reject', self.online_reject, pre=self.online_reject_pre)
+
+    def online_reject_pre(self, a, k):
+        names = ('data', 'model', 'outmask', 'inmask', 'sigma', 'invvar', 'lower', 'upper', 'maxdev', 'maxrej', 'groupdim', 'groupsize',
+                 'groupbadpix', 'grow', 'sticky')
+        kw = dict(zip(names, a))
+        kw.update(k)
+        return {n: (np.array(v, copy=True) if isinstance(v, np.ndarray) else v) for n, v in kw.items()}
+
+    def online_reject(self, on, a, k, r, kw):
+        on.count('online_reject_calls')
+        data, model = kw.get('data'), kw.get('model')
+        f8 = lambda v: isinstance(v, np.ndarray) and v.dtype == np.float64
+        if not (f8(data) and f8(model) and data.shape == model.shape and data.size > 0) or kw.get('maxrej') is not None \
+                or kw.get('groupdim') is not None or kw.get('groupsize') is not None or kw.get('groupbadpix') \
+                or not np.all(np.isfinite(data)) or not np.all(np.isfinite(model)):
+            return on.count('online_reject_calls_outside_domain')
+        sigma, invvar = kw.get('sigma'), kw.get('invvar')
+        if sigma is None and invvar is None:
+            return on.count('online_reject_calls_outside_domain')          # (default sigma: the check's own classes)
+        for v in (sigma, invvar):
+            if v is not None and not ((f8(v) and v.shape == data.shape) or isinstance(v, float)):
+                return on.count('online_reject_calls_outside_domain')
+            if v is not None and not np.all(np.isfinite(v)):
+                return on.count('online_reject_calls_outside_domain')
+        if sigma is not None and np.any(np.asarray(sigma) < 0):
+            return on.count('online_reject_calls_outside_domain')
+        grow = kw.get('grow', 0) or 0
+        sticky = bool(kw.get('sticky', False))
+        if grow and data.ndim != 1:
+            return on.count('online_reject_calls_outside_domain')
+        for v in (kw.get('lower'), kw.get('upper'), kw.get('maxdev')):
+            if v is not None and not isinstance(v, (int, float, np.integer, np.floating)):
+                return on.count('online_reject_calls_outside_domain')
+        mask, qdone = r
+        mask = np.asarray(mask)
+        if mask.shape != data.shape:
+            return on.fail('reject-shape', 'djs_reject called inside another entry point: mask shape %r for data shape %r' % (mask.shape, data.shape))
+        inmask, prev = kw.get('inmask'), kw.get('outmask')
+        neg = None
+        if invvar is not None and sigma is None and isinstance(invvar, np.ndarray):
+            neg = invvar < 0                                             # (a negative inverse variance has no square root: not judged)
+        ref = R.reject_ref(data, model, inmask=inmask, outmask=prev, sigma=sigma,
+                           invvar=None if sigma is not None else (np.where(neg, 0.0, invvar) if neg is not None else invvar),
+                           lower=kw.get('lower'), upper=kw.get('upper'), maxdev=kw.get('maxdev'), grow=int(grow), sticky=sticky)
+        got = ~(mask != 0)
+        und = ref['und'].copy()
+        if neg is not None and neg.any():
+            if grow:
+                return on.count('online_reject_calls_outside_domain')
+            und |= neg & ~ref['excluded']
+        miss = ref['must'] & ~got & ~und
+        extra = ~ref['must'] & got & ~und
+        on.count('online_reject_points_judged', int((~und).sum()))
+        on.count('online_reject_points_rejected_by_a_limit', ref['n_thr'])
+        det = dict(n=int(data.size), grow=int(grow), sticky=sticky, lower=kw.get('lower'), upper=kw.get('upper'))
+        if (miss & ref['excluded']).any():
+            on.fail('reject-excluded-kept', 'djs_reject called inside another entry point: a point excluded by inmask / the sticky previous '
+                    'outmask is not rejected in the output mask', where=np.argwhere(miss & ref['excluded'])[:10], **det)
+        if (miss & ref['thr']).any():
+            on.fail('reject-limit-kept', 'djs_reject called inside another entry point: a point whose residual is beyond a limit is not rejected',
+                    where=np.argwhere(miss & ref['thr'])[:10], resid=(data - model)[miss & ref['thr']][:10], **det)
+        if (miss & ~ref['excluded'] & ~ref['thr']).any():
+            on.fail('reject-grow-missing', 'djs_reject called inside another entry point: neighbour within grow=%d of a point rejected by a limit '
+                    'is not rejected' % grow, where=np.argwhere(miss & ~ref['excluded'] & ~ref['thr'])[:10], **det)
+        if extra.any():
+            on.fail('reject-extra', 'djs_reject called inside another entry point: a point is rejected although it is not excluded, within all '
+                    'limits and not within grow of a rejected point', where=np.argwhere(extra)[:10], resid=(data - model)[extra][:10], **det)
+        prev_eff = np.ones(data.shape, dtype=bool) if prev is None else (np.asarray(prev) != 0)
+        unchanged = bool(np.array_equal(mask != 0, prev_eff))
+        if bool(qdone) != unchanged:
+            on.fail('reject-qdone', 'djs_reject called inside another entry point: qdone=%r but the mask %s relative to the outmask passed in'
+                    % (qdone, 'is unchanged' if unchanged else 'changed'), **det)
+        on.count('online_reject_qdone_' + ('true' if unchanged else 'false'))
+
+    def run_xwork(self, case, out):
+        self.online.begin()
+        try:
+            self.xw.run(case, out)
+        finally:
+            fails, counts = self.online.end()
+        for n, v in counts.items():
+            out.count(n, v)
+        for clause, msg, detail in fails:
+            out.fail(clause, msg, **detail)
+        out.nontrivial = counts.get('online_reject_points_rejected_by_a_limit', 0) > 0
+        out.info.update(driver=case['driver'], driver_class=case.get('dcls'), online=counts)
 
     def shard_extra(self):
         return {'x_interp_max_rel_err': self._max_rel}
@@ -385,12 +481,14 @@ class C17(Check):
                 'reject_ambiguity_band_rel': R.BAND}
 
     def teardown(self):
+        self.xw.teardown()
         self.rec.unwrap_all()
         self.SD.maskbits = self._saved_maskbits
 
     def budget(self, tier):
         q = tier == 'quick'
         return {
+            'xw_iterfit': 150 if q else 6000, 'xw_traceset': 60 if q else 2500,
             'reject_options': 2500 if q else 120000,
             'reject_near': 1200 if q else 60000,
             'reject_grow': 2500 if q else 120000,
@@ -406,6 +504,10 @@ class C17(Check):
 
     # ------------------------------------------------------------------ gen
     def gen(self, cls, rng, i):
+        if cls == 'xw_iterfit':
+            return self.xw.gen('C10', rng)
+        if cls == 'xw_traceset':
+            return self.xw.gen('C13', rng, classes=('tset_fit', 'tset_table'))
         if cls.startswith('reject'):
             return self.gen_reject(cls, rng)
         if cls.startswith('interp'):
@@ -1355,6 +1457,8 @@ class C17(Check):
 
     # ------------------------------------------------------------ evidence
     def summarise(self, case):
+        if case.get('kind') == 'xwork':
+            return {'kind': 'xwork', 'driver': case['driver'], 'driver_class': case.get('dcls')}
         c = {}
         for k, v in case.items():
             if isinstance(v, list) and len(v) > 12:
